@@ -149,6 +149,20 @@ theorem abort_fault_releases_lock (s : State) (t : TxnId) (hopen : s.closed = fa
   have hne' : ¬ (t = t₂) := fun e => hne e.symm
   simp [step, hopen, doBegin, ht, hne', h1, h2, h3]
 
+/-- The same through a DemoStorage over a FileStorage: when the truncate inside `changes.tpc_abort`
+    fails, the error propagates, the demo storage has no transaction, and BOTH commit locks are free
+    (DemoStorage releases its lock in a `finally`). -/
+theorem demo_abort_fault_releases_locks (d : Demo.State fileMachine) (t : TxnId)
+    (hopen : d.changes.closed = false) (hd : d.txn = some t) (hc : d.changes.txn = some t) :
+    let r := doAbortFault d.changes t
+    let d' := (Demo.doAbortFault d t (r.1, r.2.2)).1
+    (Demo.doAbortFault d t (r.1, r.2.2)).2 = .errIO ∧ d'.txn = none ∧ d'.commitLock = none ∧
+    d'.changes.commitLock = none ∧ canBegin d'.changes = true := by
+  have h : doAbortFault d.changes t =
+      ({ d.changes with commitLock := none, armed := none }, [.fault .data], .errIO) := by
+    simp [doAbortFault, hopen, hc]
+  simp [h, Demo.doAbortFault, hd, canBegin, hopen]
+
 /-! ### MappingStorage (optionally under a BlobStorage) and DemoStorage -/
 
 /-- C05 for MappingStorage: observable state restored, commit lock free, from every reachable
